@@ -231,3 +231,123 @@ def read_cache_contract(ck, mod):
             mod.os, mod.h5py = real_os, real_h5
         ck.struct("reader.cache.returns_what_exists_now", ok, detail or name, {"attr": name})
         ck.struct("reader.cache.opens_readonly", all(m == "r" for _, m in opened), "%s: opened %s" % (name, opened), {"attr": name})
+
+
+def vector_conversion(ck, mod):
+    """read_vector / read_vector_1d (enumerated over stored element types): the raw vector is converted to the smallest floating type
+    that holds every value of the stored type exactly (float32 / float64, complex64 / complex128 for structured (r, i) data), element
+    for element, same shape; read_vector_1d is read_vector with sub-channel 0 by default."""
+    import numpy as np
+    R = mod.DigitalRFReader
+    for nm in ("read_vector", "read_vector_1d"):
+        ck.add_function(pyload.source_info(mod, "DigitalRFReader." + nm))
+    bad = []
+    n = 0
+    cases = []
+    for dt in ("i1", "u1", "i2", "u2", "i4", "u4", "i8", "f4", "f8", ">i2", ">f4", "c8", "c16"):
+        d = np.dtype(dt)
+        info = np.iinfo(d) if d.kind in "iu" else None
+        vals = [0, 1, 2] + ([int(info.min), int(info.max)] if info is not None else [-3, 1e6])
+        if d.kind in "iu" and d.itemsize == 8:
+            vals = [0, 1, -5, 2 ** 40]      # 64-bit integers are not exactly representable in any float type beyond 2^53: documented promotion is float64
+        arr = np.array(vals, dtype=d) if d.kind != "c" else (np.array(vals[:3], dtype=d) + 1j)
+        cases.append((dt, arr))
+    for rdt in ("i1", "i2", "i4", "f4"):
+        sd = np.dtype([("r", rdt), ("i", rdt)])
+        a = np.zeros(4, dtype=sd)
+        a["r"], a["i"] = [1, -2, 3, 100], [5, 6, -7, -100]
+        cases.append(("struct " + rdt, a))
+    for tag, arr in cases:
+        for shape2 in (False, True):
+            z = np.stack([arr, arr], axis=1) if shape2 else arr
+            n += 1
+            rec = []
+            self_ = types.SimpleNamespace(read_vector_raw=lambda s, L, ch, sc=None: (rec.append((s, L, ch, sc)), z)[1])
+            try:
+                out = R.read_vector(self_, 100, len(arr), "ch", 1 if shape2 else None)
+            except Exception as e:
+                bad.append((tag, shape2, "raised %r" % (e,)))
+                continue
+            okcall = rec == [(100, len(arr), "ch", 1 if shape2 else None)]
+            if z.dtype.names is not None:
+                want_dt = np.promote_types("c8", z.dtype["r"])
+                want = z["r"].astype("f8") + 1j * z["i"].astype("f8")
+            else:
+                want_dt = np.promote_types("f4", z.dtype)
+                want = z
+            lossless = out.shape == z.shape and out.dtype.kind in "fc" and bool(np.array_equal(np.asarray(out, dtype="c16"), np.asarray(want, dtype="c16")))
+            # smallest safe floating type: float32 holds 8/16-bit integers (and float32), everything wider needs float64
+            base = z.dtype["r"] if z.dtype.names is not None else z.dtype
+            small = base.itemsize <= 2 and base.kind in "iu" or (base.kind == "f" and base.itemsize == 4) or (base.kind == "c" and base.itemsize == 8)
+            want_size = (4 if small else 8) * (2 if (z.dtype.names is not None or base.kind == "c") else 1)
+            if not (okcall and lossless and out.dtype == want_dt and out.dtype.itemsize == want_size):
+                bad.append((tag, shape2, "call %s dtype %s (expected %s, %d bytes) lossless %s" % (rec, out.dtype, want_dt, want_size, lossless)))
+    rec = []
+    self_ = types.SimpleNamespace(read_vector=lambda s, L, ch, sc=None: (rec.append((s, L, ch, sc)), "VEC")[1])
+    n += 2
+    if R.read_vector_1d(self_, 5, 7, "ch") != "VEC" or rec != [(5, 7, "ch", 0)]:
+        bad.append(("read_vector_1d default sub-channel", rec))
+    del rec[:]
+    if R.read_vector_1d(self_, 5, 7, "ch", 2) != "VEC" or rec != [(5, 7, "ch", 2)]:
+        bad.append(("read_vector_1d explicit sub-channel", rec))
+    ck.enumerations.append(("reader.vector.conversion", n, len(bad), bad[:3]))
+    ck.struct("reader.vector.conversion", not bad, "read_vector / read_vector_1d deviate from the documented lossless conversion: %s" % (bad[:4],), {"no_input": False})
+
+
+def reader_init_merge(ck, mod):
+    """DigitalRFReader.__init__ (modular, enumerated): every channel name found under any of the top-level directories becomes one channel
+    whose per-directory parts are all the directories that hold it, in the order the directories were given, each built with that
+    directory, the channel name, the directory's access mode and the cache size; no directories at all -> ValueError."""
+    import itertools as _it
+    R = mod.DigitalRFReader
+    ck.add_function(pyload.source_info(mod, "DigitalRFReader.__init__"))
+    real = {k: mod.__dict__[k] for k in ("_top_level_dir_properties", "_channel_properties")}
+    bad = []
+    n = 0
+    tops = ["/data/topA", "/data/topB", "/data/topC"]
+    layouts = [
+        {"/data/topA": ["ch0"]},
+        {"/data/topA": ["ch0", "ch1"], "/data/topB": ["ch1"]},
+        {"/data/topA": ["ch0"], "/data/topB": ["ch0"], "/data/topC": ["ch0", "ch2"]},
+        {"/data/topA": [], "/data/topB": ["x"]},
+        {"/data/topA": [], "/data/topB": []},
+    ]
+    for lay, order in _it.product(layouts, ("fwd", "rev")):
+        given = [t for t in tops if t in lay]
+        if order == "rev":
+            given = list(reversed(given))
+        made = []
+
+        class TL:
+            def __init__(self, top, name, mode, rdcc_nbytes=None):
+                self.args = (top, name, mode, rdcc_nbytes)
+                made.append(self)
+
+        class CP:
+            def __init__(self, name, top_level_dir_meta_list=None):
+                self.name, self.parts = name, list(top_level_dir_meta_list or [])
+        mod._top_level_dir_properties, mod._channel_properties = TL, CP
+        r = object.__new__(R)
+        r._get_channels_in_dir = lambda top: [top + "/" + c for c in lay[top]]
+        n += 1
+        try:
+            try:
+                R.__init__(r, given if len(given) != 1 else given[0], rdcc_nbytes=777)
+                got = {k: [p.args for p in v.parts] for k, v in r._channel_dict.items()}
+            except ValueError:
+                got = "ValueError"
+            except Exception as e:
+                got = "raised %r" % (e,)
+        finally:
+            for k, v in real.items():
+                mod.__dict__[k] = v
+        names = []
+        for t in given:
+            for c in lay[t]:
+                if c not in names:
+                    names.append(c)
+        want = {c: [(t, c, "local", 777) for t in given if c in lay[t]] for c in names} if names else "ValueError"
+        if got != want:
+            bad.append((lay, order, got, want))
+    ck.enumerations.append(("reader.init.channels_merged_over_directories", n, len(bad), bad[:2]))
+    ck.struct("reader.init.channels_merged_over_directories", not bad, "DigitalRFReader.__init__ deviates: %s" % (bad[:2],), {})
